@@ -612,8 +612,16 @@ where
             self.pending = pending.split_off(i + 1);
         }
 
+        #[cfg(unix)]
+        let arg = {
+            use std::os::unix::ffi::OsStringExt;
+            OsString::from_vec(result)
+        };
+        #[cfg(not(unix))]
+        let arg: OsString = String::from_utf8_lossy(&result[..]).into_owned().into();
+
         Ok(Some(Argument {
-            arg: String::from_utf8_lossy(&result[..]).into_owned().into(),
+            arg,
             kind: if terminated_by_newline {
                 ArgumentKind::HardTerminated
             } else {
@@ -661,8 +669,15 @@ where
                 } else {
                     &buf[..]
                 };
+                #[cfg(unix)]
+                let arg = {
+                    use std::os::unix::ffi::OsStringExt;
+                    OsString::from_vec(bytes.to_vec())
+                };
+                #[cfg(not(unix))]
+                let arg: OsString = String::from_utf8_lossy(bytes).into_owned().into();
                 break Some(Argument {
-                    arg: String::from_utf8_lossy(bytes).into_owned().into(),
+                    arg,
                     kind: ArgumentKind::HardTerminated,
                 });
             }
